@@ -39,7 +39,8 @@ EXPLANATION = (
     "R14.1 (only scans write the visible health fields) applied here; R9.10 no describe_state implementation stores on self or "
     "mutates one of its attributes (the state handed to observe is computed afresh); R9.11 every store of Folder.visible_health_status "
     "is accompanied on every path by raising the flag Folder reports as `scanned_this_step` (the folder observation refreshes "
-    "only then); R9.12 = C02's R2.2 (every Discrete leaf's value interval fits its space) applied here. NOT decided: numerical equality of every leaf with the simulator's attribute at every step (needs "
+    "only then); R9.12 = C02's R2.2 (every Discrete leaf's value interval fits its space) applied here; R9.13 the link load band's fixed points (idle -> 0, any traffic -> at least 1, full link -> top of the declared space, "
+    "almost full -> below it, monotone) by finite-point evaluation of LinkObservation.observe. NOT decided: numerical equality of every leaf with the simulator's attribute at every step (needs "
     "execution), whether describe_state is called after all of the step's effects, and the contents of untyped "
     "dictionaries (NetworkInterface.traffic / nmne) below their top-level key."
 )
@@ -895,6 +896,55 @@ def r9_11(ctx: Ctx, om: ObsModel) -> None:
 
 
 
+def r9_13(ctx: Ctx) -> None:
+    """Link load band.  Whatever the band widths are, three points of the encoding are fixed by what a band is: an idle link
+    reads 0 (the default encoding), any traffic at all reads at least 1, and a full link reads the top of the leaf's declared
+    space - the only way that value can occur, since a link never carries more than its bandwidth.  Bands are monotone in the load."""
+    from ..absval import UNKNOWN, Evaluator, walk
+    ix = ctx.ix
+    ctx.rule("R9.13", "link load band anchors: idle -> 0, any traffic -> >= 1, full link -> top of the declared space, monotone in the load "
+                      "(finite-point evaluation of LinkObservation.observe)")
+    f = ix.method("LinkObservation.observe")
+    sp = ix.method("LinkObservation.space")
+    tops = [c.args[0].value for c in ast.walk(sp.node) if isinstance(c, ast.Call) and call_name(c) == "Discrete" and c.args
+            and isinstance(c.args[0], ast.Constant)]
+    if len(tops) != 1:
+        raise AnalysisError("R9.13: LinkObservation.space does not declare exactly one Discrete(n) leaf")
+    top = tops[0] - 1
+    subs = {}
+    for x in ast.walk(f.node):
+        if isinstance(x, ast.Subscript) and isinstance(x.slice, ast.Constant) and x.slice.value in ("bandwidth", "current_load"):
+            subs[x.slice.value] = unparse(x)
+    if set(subs) != {"bandwidth", "current_load"}:
+        raise AnalysisError("R9.13: LinkObservation.observe no longer reads link_state['bandwidth'] and ['current_load']")
+    absent = [unparse(x) for x in ast.walk(f.node) if isinstance(x, ast.Compare) and "NOT_PRESENT_IN_STATE" in unparse(x)]
+    g = CFG(f.node)
+    bw = 90.0
+    got = {}
+    for load in (0, 0.001, 1, 10, 45, 89.999, 90):
+        env = {subs["bandwidth"]: bw, subs["current_load"]: load}
+        for a in absent:
+            env[a] = "is not" in a or "!=" in a
+        ev = Evaluator(env)
+        kind, node, _ = walk(g, ev)
+        if kind != "return":
+            raise AnalysisError(f"R9.13: cannot evaluate LinkObservation.observe for load {load} ({kind})")
+        leaf = node.ast.value
+        while isinstance(leaf, ast.Dict) and len(leaf.values) == 1:
+            leaf = leaf.values[0]
+        v = ev.ev(leaf)
+        if v is UNKNOWN:
+            raise AnalysisError(f"R9.13: cannot evaluate the returned leaf `{unparse(leaf)[:60]}` for load {load}")
+        got[load] = v
+    seq = [got[k] for k in sorted(got)]
+    checks = [("idle link reads 0", got[0] == 0), ("any traffic reads at least 1", got[0.001] >= 1 and got[1] >= 1),
+              (f"a full link reads {top}, the top of Discrete({top + 1})", got[90] == top),
+              ("an almost full link stays below the top", got[89.999] < top),
+              ("monotone in the load", all(a <= b for a, b in zip(seq, seq[1:])))]
+    for what, ok in checks:
+        ctx.record("R9.13", ctx.key(f, what), f.loc(), ok, f"band by load (bandwidth {bw:g}): {got}")
+
+
 def check(ctx: Ctx) -> None:
     om = ObsModel(ctx.ix)
     ctx.count("E6:describe_state implementations", len(om.schema.impls()))
@@ -917,6 +967,7 @@ def check(ctx: Ctx) -> None:
     from . import c02
     with ctx.borrowed({"R2.2": "R9.12"}):
         c02.r2_2(ctx, om)
+    r9_13(ctx)
     ctx.count("E6:describe_state functions evaluated", len(om.schema.evaluated))
 
 
